@@ -504,6 +504,8 @@ fn read_edges(out: &[u8], dot: bool) -> Option<Vec<(String, String)>> {
     for line in text.lines() {
         let l = line.trim();
         if l.is_empty() { continue; }
+        // a statement of a graphviz graph may end in a semicolon, and its indentation is free
+        let l = if dot { l.trim_end_matches(';').trim_end() } else { l };
         if dot {
             if l.starts_with("digraph") || l.starts_with("graph") || l == "}" { continue; }
             let (a, b) = l.split_once(" -> ").or_else(|| l.split_once(" -- "))?;
